@@ -1,10 +1,10 @@
 package props
 
 import (
-	"runtime"
 	"bytes"
 	"context"
 	"fmt"
+	"runtime"
 	"sync"
 	"testing"
 	"time"
